@@ -276,10 +276,60 @@ fn stdin_bytes() -> BoxedStrategy<Vec<u8>> {
             v.insert(pos, b);
             v
         }),
+        // valid text whose last (unterminated) line ends inside a multi-byte character
+        2 => (stdin_text(), prop::sample::select(vec!["é", "한", "😀", "€"]), 1usize..4, any::<bool>()).prop_map(|(t, ch, cut, strip_nl)| {
+            let mut t = t;
+            if strip_nl {
+                while t.ends_with('\n') || t.ends_with('\r') {
+                    t.pop();
+                }
+            }
+            let mut v = t.into_bytes();
+            let b = ch.as_bytes();
+            v.extend_from_slice(&b[..cut.min(b.len() - 1)]);
+            v
+        }),
         1 => prop::collection::vec(any::<u8>(), 0..40),
         1 => Just(Vec::new()),
     ]
     .boxed()
+}
+
+/// files whose `check` listing has index / line / column values around powers of ten (column widths change there)
+fn wide_listing_strategy() -> BoxedStrategy<Case13> {
+    let n = prop::sample::select(vec![9usize, 10, 11, 99, 100, 101, 999, 1000, 1001, 1002, 9999, 10000, 10001]);
+    (n, 0u8..4, prop::sample::select(vec![0usize, 9, 10, 99, 100, 999, 1000, 1001, 9999, 10000]), prop::sample::select(vec![0usize, 9, 10, 99, 100, 999, 1000, 1001, 10000]), 0u8..4)
+        .prop_map(|(n, mode, lines, cols, sub)| {
+            let mut text = String::new();
+            match mode {
+                0 => {
+                    for i in 0..n {
+                        text.push(crate::refparse::ONE_SYLLABLE[i % 5]);
+                        text.push(' ');
+                    }
+                }
+                1 => {
+                    // one command per line
+                    for i in 0..n {
+                        text.push(crate::refparse::ONE_SYLLABLE[i % 5]);
+                        text.push('\n');
+                    }
+                }
+                _ => {
+                    // a few commands, one of them far down / far to the right
+                    text.push_str("형. 항... ");
+                    for _ in 0..lines {
+                        text.push('\n');
+                    }
+                    for _ in 0..cols {
+                        text.push(' ');
+                    }
+                    text.push_str("형.. 항... 형");
+                }
+            }
+            Case13 { file: text.into_bytes(), name: NameKind::Hyeong, stdin: Vec::new(), sub: if sub == 0 { 0 } else { 3 } }
+        })
+        .boxed()
 }
 
 fn strategy() -> BoxedStrategy<Case13> {
@@ -313,6 +363,10 @@ pub fn run(ctx: &Ctx, out: &mut Outcome) {
     {
         let (bin, scratch) = (bin.clone(), scratch.clone());
         search::<Case13>(ctx, out, "cli", t.pick(12_000, 150_000), &strategy, &move |c, st| check(c, st, &bin, &scratch, budget));
+    }
+    {
+        let (bin, scratch) = (bin.clone(), scratch.clone());
+        search::<Case13>(ctx, out, "wide-listings", t.pick(400, 3_000), &wide_listing_strategy, &move |c, st| check(c, st, &bin, &scratch, 40_000));
     }
     search::<Case13>(ctx, out, "deep-areas", t.pick(300, 3_000), &deep_strategy, &move |c, st| check(c, st, &bin, &scratch, budget));
 }
